@@ -4,15 +4,15 @@
 # running checks build from, is never disturbed), runs the check against it through GV_REPO, removes the change again.
 # (Equivalent to: git -C /repo apply <patch>; ./check <Cxx> <tier>; git -C /repo checkout -- .)
 id=$1; prop=$2; tier=${3:-quick}
-S=/tmp/r/seedrun
-[ -d $S ] || git -C /repo worktree add -q --detach $S
+S=/tmp/r/seedrun-$$   # one scratch worktree per invocation: concurrent runs must not reset each other
+git -C /repo worktree add -q --detach $S
 git -C $S checkout -q --detach $(git -C /repo rev-parse HEAD) && git -C $S checkout -q -- .
 case "$id" in
   commit:*) git -C $S show ${id#commit:} | git -C $S apply -R || { echo "cannot revert"; exit 9; } ;;
   *) git -C $S apply /verif/seeded/$id/patch.diff || { echo "cannot apply"; exit 9; } ;;
 esac
 cd /verif; GV_REPO=$S ./check $prop $tier > /tmp/seeded_$id.$prop.out 2>&1; rc=$?
-git -C $S checkout -q -- .
+git -C /repo worktree remove --force $S
 # the evidence file must describe /repo itself: restore it from git if it was committed
 git -C /verif checkout -q -- evidence/$prop.json 2>/dev/null
 echo "== $id vs $prop ($tier): exit=$rc :: $(grep -m1 VIOLATION /tmp/seeded_$id.$prop.out | cut -c1-150)"
